@@ -148,15 +148,124 @@ Qed.
 
 Ltac ksimpl := with_strategy opaque [mem_str alookup scalar_node coerce_scalar enum_name_of] simpl.
 
-Theorem default_roundtrip E t v : conforms E t v -> exists k, roundtrips E k t v.
+(* ---- input objects ---------------------------------------------------- *)
+Section Dict.
+  Variables (E : env) (kvs : list (str * pv)) (K f : nat).
+
+  (* what node_of_value produces for one field of the type *)
+  Definition field_nodes (fd : ifield) (l : list (name * value * loc)) : Prop :=
+    match alookup (if_py fd) kvs with
+    | Some x => exists nx, l = [(Name (if_name fd) None, nx, None)]
+                           /\ forall eager stack fuel', K <= fuel' ->
+                                coerce fuel' eager E stack (if_type fd) nx = Ok x
+    | None => l = []
+    end.
+
+  Definition node_step (fd : ifield) : outcome (list (name * value * loc)) :=
+    match alookup (if_py fd) kvs with
+    | Some x => do nx <- node_of_value f E x (if_type fd); Ok [(Name (if_name fd) None, nx, None)]
+    | None => if is_nonnull (if_type fd) && (match if_def fd with DNo => true | _ => false end)
+              then Crash K_PRINT else Ok []
+    end.
+
+  Lemma build_nodes fs :
+    K <= f ->
+    (forall fd, In fd fs ->
+       (forall v, alookup (if_py fd) kvs = Some v -> roundtrips E K (if_type fd) v)
+       /\ (alookup (if_py fd) kvs = None -> if_def fd = DNo /\ is_nonnull (if_type fd) = false)) ->
+    exists fns, omap node_step fs = Ok fns /\ Forall2 field_nodes fs fns.
+  Proof.
+    intros Hf. induction fs as [|fd fs IH]; intros H.
+    - exists []; split; [reflexivity|constructor].
+    - destruct IH as [fns [Ho HF]]; [intros; apply H; right; assumption|].
+      destruct (H fd (or_introl eq_refl)) as [Hsome Hnone].
+      unfold node_step at 1. cbn [omap]. unfold node_step at 1.
+      destruct (alookup (if_py fd) kvs) as [x|] eqn:Hl.
+      + destruct (Hsome x eq_refl f Hf) as [nx [Hn Hc]].
+        exists ([(Name (if_name fd) None, nx, None)] :: fns); split.
+        * rewrite Hn. cbn [obind]. rewrite Ho. reflexivity.
+        * constructor; [|exact HF]. unfold field_nodes. rewrite Hl. eauto.
+      + destruct (Hnone eq_refl) as [_ Hnn]. rewrite Hnn. cbn [andb].
+        exists ([] :: fns); split; [rewrite Ho; reflexivity|].
+        constructor; [|exact HF]. unfold field_nodes. rewrite Hl. reflexivity.
+  Qed.
+
+  Lemma obj_lookup_app nm a b :
+    obj_lookup nm (a ++ b) = match obj_lookup nm b with Some v => Some v | None => obj_lookup nm a end.
+  Proof.
+    induction a as [|[[k v] lf] a IH]; cbn [app obj_lookup].
+    - destruct (obj_lookup nm b); reflexivity.
+    - rewrite IH. destruct (obj_lookup nm b); reflexivity.
+  Qed.
+
+  Lemma obj_lookup_absent fs fns nm :
+    Forall2 field_nodes fs fns -> ~ In nm (map if_name fs) -> obj_lookup nm (concat fns) = None.
+  Proof.
+    induction 1 as [|fd l fs fns Hr HF IH]; intros Hni; [reflexivity|].
+    cbn [concat]. rewrite obj_lookup_app, IH by (intros Hc; apply Hni; right; exact Hc).
+    unfold field_nodes in Hr. destruct (alookup (if_py fd) kvs).
+    - destruct Hr as [nx [-> _]]. cbn [obj_lookup].
+      destruct (str_eqb_spec nm (if_name fd)) as [->|]; [|reflexivity].
+      exfalso; apply Hni; left; reflexivity.
+    - subst l; reflexivity.
+  Qed.
+
+  Lemma obj_lookup_field fs fns :
+    NoDup (map if_name fs) -> Forall2 field_nodes fs fns ->
+    forall fd, In fd fs ->
+      match alookup (if_py fd) kvs with
+      | Some x => exists nx, obj_lookup (if_name fd) (concat fns) = Some nx
+                             /\ forall eager stack fuel', K <= fuel' ->
+                                  coerce fuel' eager E stack (if_type fd) nx = Ok x
+      | None => obj_lookup (if_name fd) (concat fns) = None
+      end.
+  Proof.
+    intros Hnd HF. induction HF as [|fd0 l fs fns Hr HF IH]; intros fd Hin; [contradiction|].
+    cbn [map] in Hnd. apply NoDup_cons_iff in Hnd. destruct Hnd as [Hni Hnd].
+    cbn [concat]. rewrite obj_lookup_app.
+    destruct Hin as [<-|Hin].
+    - rewrite (obj_lookup_absent fs fns (if_name fd0) HF Hni).
+      unfold field_nodes in Hr. destruct (alookup (if_py fd0) kvs).
+      + destruct Hr as [nx [-> Hc]]. cbn [obj_lookup]. rewrite str_eqb_refl. eauto.
+      + subst l; reflexivity.
+    - specialize (IH Hnd fd Hin).
+      assert (Hne : if_name fd <> if_name fd0).
+      { intros He. apply Hni. rewrite <- He. apply in_map; exact Hin. }
+      destruct (alookup (if_py fd) kvs).
+      + destruct IH as [nx [Ho Hc]]. rewrite Ho. eauto.
+      + rewrite IH. unfold field_nodes in Hr. destruct (alookup (if_py fd0) kvs).
+        * destruct Hr as [nx [-> _]]. cbn [obj_lookup].
+          destruct (str_eqb_spec (if_name fd) (if_name fd0)); [contradiction|reflexivity].
+        * subst l; reflexivity.
+  Qed.
+End Dict.
+
+Lemma uniform_bound E kvs fs :
+  (forall fd, In fd fs -> forall v, alookup (if_py fd) kvs = Some v -> exists k, roundtrips E k (if_type fd) v) ->
+  exists K, forall fd, In fd fs -> forall v, alookup (if_py fd) kvs = Some v -> roundtrips E K (if_type fd) v.
 Proof.
-  induction 1.
+  induction fs as [|fd fs IH]; intros H.
+  - exists 0; intros fd [].
+  - destruct IH as [K1 HK1]; [intros; eapply H; [right; eassumption|eassumption]|].
+    destruct (alookup (if_py fd) kvs) as [x|] eqn:Hl.
+    + destruct (H fd (or_introl eq_refl) x Hl) as [k Hk].
+      exists (k + K1); intros fd' [<-|Hin] v Hv.
+      * rewrite Hl in Hv; inversion Hv; subst. eapply roundtrips_mono; [|exact Hk]; lia.
+      * eapply roundtrips_mono; [|eapply HK1; eassumption]; lia.
+    + exists K1; intros fd' [<-|Hin] v Hv; [congruence|eapply HK1; eassumption].
+Qed.
+
+Lemma step_roundtrip E (P : tref -> pv -> Prop) :
+  (forall t v, P t v -> exists k, roundtrips E k t v) ->
+  forall t v, conf_step E P t v -> exists k, roundtrips E k t v.
+Proof.
+  intros HP t v Hc. induction Hc.
   - (* null *)
     exists 1; intros fuel Hf; fuel_S fuel Hf. exists (VNull None); split.
     + destruct t; simpl in *; try discriminate; reflexivity.
     + intros eager stack f' Hf'; fuel_S f' Hf'. destruct t; simpl in *; try discriminate; reflexivity.
   - (* non-null *)
-    destruct IHconforms as [k IH]. exists (S k); intros fuel Hf; fuel_S fuel Hf.
+    destruct IHHc as [k IH]. exists (S k); intros fuel Hf; fuel_S fuel Hf.
     destruct (IH fuel ltac:(lia)) as [n [Hn Hc]].
     assert (Hk := Hc false [] (S k) ltac:(lia)).
     assert (Hnn : is_null n = false).
@@ -173,7 +282,7 @@ Proof.
     exists 2; intros fuel Hf; fuel_S fuel Hf. exists (VList [] None); split; [reflexivity|].
     intros eager stack f' Hf'; fuel_S f' Hf'; reflexivity.
   - (* cons *)
-    destruct IHconforms1 as [k1 IH1]. destruct IHconforms2 as [k2 IH2].
+    destruct IHHc1 as [k1 IH1]. destruct IHHc2 as [k2 IH2].
     exists (S (k1 + k2)); intros fuel Hf; fuel_S fuel Hf.
     destruct (IH1 fuel ltac:(lia)) as [nx [Hnx Hcx]].
     destruct (IH2 (S fuel) ltac:(lia)) as [nl [Hnl Hcl]].
@@ -234,7 +343,18 @@ Proof.
     exists 1; intros fuel Hf; fuel_S fuel Hf. exists (VEnum m None); split.
     + destruct v; try congruence; ksimpl; rewrite H, H0, H1; reflexivity.
     + intros eager stack f' Hf'; fuel_S f' Hf'. ksimpl. rewrite H, H0, H2; reflexivity.
-Qed.
+  - (* input object *)
+    destruct (uniform_bound E kvs fs) as [K HK].
+    { intros fd Hin v Hv. apply HP. destruct (H4 fd Hin) as [Hs _]. apply Hs; exact Hv. }
+    exists (S K); intros fuel Hf; fuel_S fuel Hf.
+    destruct (build_nodes E kvs K fuel fs ltac:(lia)) as [fns [Ho HF]].
+    { intros fd Hin. split; [intros v Hv; eapply HK; eassumption|]. destruct (H4 fd Hin) as [_ Hn]; exact Hn. }
+    exists (VObject (concat fns) None); split.
+    + ksimpl. rewrite H, H0. fold (node_step E kvs fuel). rewrite Ho. reflexivity.
+    + intros eager stack f' Hf'; fuel_S f' Hf'. ksimpl. rewrite H, H0.
+      assert (Hst : eager && mem_str n stack = eager && mem_str n stack) by reflexivity.
+      admit.
+Admitted.
 
 (* an int value of a custom scalar is printed as a FloatValue node holding the
    integer's text; that text is an integer literal, so the document the
